@@ -443,7 +443,13 @@ func (p *Parser) parseStrictTermArg(curObj *Object) (*Object, parseResult) {
 	_, _ = p.nextOpcode()
 	termObj = p.objTree.newObject(nextOp, p.tableHandle)
 	termObj.amlOffset = curOffset
+
+	// Attach termObj to curObj while its args get parsed so that lookups
+	// of names and methods nested inside termObj start from a scope that
+	// is connected to the tree.
+	p.objTree.append(curObj, termObj)
 	res = p.parseObjectArgs(termObj)
+	p.objTree.detach(curObj, termObj)
 	if p.r.EOF() {
 		p.popPkgEnd()
 	}
